@@ -29,14 +29,15 @@ func (in *Interp) conv(dst, src types.Type, x Value) Value {
 			}
 			if db.Info()&types.IsFloat != 0 {
 				if !v.IsConst() {
+					fw := -64
 					if db.Kind() == types.Float32 {
-						in.fail("symbolic int->float32")
+						fw = -32
 					}
 					_, ssg, _ := intWidth(src)
 					if ssg {
-						return Float{T: mk("to_fp_signed", -64, v)}
+						return Float{T: mk("to_fp_signed", fw, v)}
 					}
-					return Float{T: mk("to_fp_unsigned", -64, v)}
+					return Float{T: mk("to_fp_unsigned", fw, v)}
 				}
 				_, ssg, _ := intWidth(src)
 				if ssg {
@@ -57,10 +58,21 @@ func (in *Interp) conv(dst, src types.Type, x Value) Value {
 	case Float:
 		if db, ok := du.(*types.Basic); ok {
 			if db.Info()&types.IsFloat != 0 {
-				if db.Kind() == types.Float32 {
-					return Float{F: float64(float32(v.F))}
+				if v.T != nil {
+					// symbolic: float32 <-> float64 conversion (round to nearest even)
+					want := -64
+					if db.Kind() == types.Float32 {
+						want = -32
+					}
+					if v.T.W == want {
+						return v
+					}
+					return Float{T: mk("fp_to_fp", want, v.T)}
 				}
-				return v
+				if db.Kind() == types.Float32 {
+					return Float{F: float64(float32(v.F)), Is32: true}
+				}
+				return Float{F: v.F}
 			}
 			if db.Info()&types.IsInteger != 0 {
 				dw, sg, _ := intWidth(dst)
